@@ -162,6 +162,13 @@ def run_calendar(job):
             day += one
             continue
         base = (day - e0).days * 86400
+        if ndays % 97 == 0:
+            # a conversion beyond the calendar's range is refused - and leaves nothing behind that the next,
+            # ordinary conversions could trip over (results depend on the index only, never on the call history)
+            try:
+                drf.get_unix_time(10**17, 1, 1)
+            except Exception:  # noqa: BLE001
+                pass
         for sec in (0, 43200, 86399):
             k = base + sec
             dt, p = drf.get_unix_time(k, 1, 1)
